@@ -12,6 +12,18 @@ voxel grids and instanced scenes are round-tripped through their own formats, an
 non-representable coordinates is compared with the format's quantisation.
 This is encode/decode fidelity: the specification is the capability oracle and the chain /
 option enumerator; the claim is exploration-level.
+
+Coverage audit (second version): the capability table (spec/ExchangeCaps.tla) has one entry per
+(format, option variant) - 29 mesh variants including multi-file glTF with merged / embedded
+buffers, vertex normals, OBJ digits / header / colour switches, 3MF batch size and compression,
+loader options - and tables for point clouds, paths, voxel grids and scenes.  Chains run over all
+variants for two geometry classes (with / without unreferenced vertices; duplicate vertices,
+degenerate and repeated faces), vertex colours are compared corner by corner.  On top of the
+chains, single round trips of every kind are RECORDED (checks/c08_records.py) and judged by TLC
+(spec/ExchangeRecords.tla): derived values read before exporting, exporting twice, empty
+geometry, seeded random meshes / clouds / grids, non-representable coordinates at the format's
+precision class, other entry points (file names, file objects, pathlib, overwrite), large index
+values through every text format, entity kinds of paths, scene configurations.
 """
 import io
 import sys
@@ -21,11 +33,12 @@ import numpy as np
 from harness import tlc
 from harness.common import (MachineryError, Verdict, import_trimesh, pmap, seed,
                             tier_from_args)
+from checks import c08_records as R
 
 PROP = "C08"
 
 CFG = """CONSTANTS
-  Formats <- MeshFormats
+  Formats <- {formats}
   MaxHops = {hops}
 SPECIFICATION Spec
 {invs}
@@ -33,65 +46,35 @@ CHECK_DEADLOCK FALSE
 """
 
 
-def cfg(hops, invs):
-    return CFG.format(hops=hops, invs="\n".join("INVARIANT " + i for i in invs))
+def cfg(hops, invs, formats="MeshFormats"):
+    return CFG.format(hops=hops, formats=formats, invs="\n".join("INVARIANT " + i for i in invs))
 
 
-FMT_OPTS = {"ply_ascii": ("ply", {"encoding": "ascii"}), "stl_ascii": ("stl_ascii", {})}
+CFG_REC = """INIT Init
+NEXT Next
+INVARIANT Report
+CHECK_DEADLOCK FALSE
+"""
 
-
-def seeds(tm):
-    out = {}
-    b = tm.creation.box(extents=[1, 2, 3])
-    bv = np.array(b.vertices) + [0.5, 1.0, 1.5]
-    bf = np.array(b.faces)
-
-    def mk(v, f, kind):
-        m = tm.Trimesh(np.array(v, dtype=np.float64), np.array(f), process=False)
-        if kind == "fc":
-            m.visual.face_colors = (np.arange(len(f) * 4).reshape(-1, 4) * 5 % 250 + 3).astype(np.uint8)
-        elif kind == "vc":
-            m.visual.vertex_colors = (np.arange(len(v) * 4).reshape(-1, 4) * 7 % 250 + 3).astype(np.uint8)
-        return m
-    out["box_fc"] = lambda: mk(bv, bf, "fc")
-    out["box_vc"] = lambda: mk(bv, bf, "vc")
-    out["box_plain"] = lambda: mk(bv, bf, None)
-    tv = np.array([[0, 0, 0], [2, 0, 0], [0, 4, 0], [0, 0, 1], [8, 8, 8.5], [10, 8, 8.5], [8, 12, 8.5], [8, 8, 9.5]])
-    tf = np.array([[0, 2, 1], [0, 1, 3], [1, 2, 3], [2, 0, 3], [4, 6, 5], [4, 5, 7], [5, 6, 7], [6, 4, 7]])
-    out["two_tets_vc"] = lambda: mk(tv, tf, "vc")
-    out["one_face_fc"] = lambda: mk([[0, 0, 0], [1, 0, 0], [0, 1, 0.25]], [[0, 1, 2]], "fc")
-    # negative / large / dyadic coordinates, shared vertices referenced out of order, large-ish indices
-    gv = np.array([[-1024.5, 0.125, 3], [2048, -0.0625, 7], [0.5, 65536, -8], [1, 1, 1], [-3, -5, -7], [4096.25, 2, 2]])
-    gf = np.array([[5, 0, 3], [3, 0, 1], [4, 2, 5], [1, 2, 3]])
-    out["odd_coords_fc"] = lambda: mk(gv, gf, "fc")
-    return out
+# seed meshes of the chains by geometry class of Exchange.tla
+CHAIN_SEEDS = {"clean": ["box_fc", "box_vc", "box_plain", "two_tets_vc", "one_face_fc", "odd_coords_fc", "dup_vc", "dup_fc"],
+               "unref": ["messy_vc", "messy_fc", "messy_plain"]}
 
 
 def export_load(tm, m, fmt):
-    ft, kw = FMT_OPTS.get(fmt, (fmt, {}))
-    h0 = m.__hash__()
-    hv0 = m.visual.__hash__() if hasattr(m.visual, "__hash__") else 0
-    v0 = np.array(m.vertices).copy()
-    f0 = np.array(m.faces).copy()
-    data = m.export(file_type=ft, **kw)
-    src_ok = (m.__hash__() == h0) and np.array_equal(np.array(m.vertices), v0) and np.array_equal(np.array(m.faces), f0)
-    if ft in ("dict", "dict64"):
-        r = tm.load_mesh(data, process=False)
-    else:
-        raw = data.encode("utf-8") if isinstance(data, str) else data
-        if isinstance(raw, dict):
-            raise MachineryError("exporter returned a dict of files for " + fmt)
-        r = tm.load_mesh(io.BytesIO(raw), file_type=ft, process=False)
+    """One hop through a (format, option variant) of spec/ExchangeCaps.tla."""
+    ft, ekw, lkw = R.MESH_VARIANTS[fmt]
+    snap = R._source_snapshot(m)
+    data = m.export(file_type=ft, **ekw)
+    src_ok = R._source_same(m, snap)
+    r = R.load_back(tm, data, ft, lkw, "mesh")
     return r, src_ok
 
 
-def replay_chain(tm, mk, chain):
-    g0 = mk()
-    tri0 = np.array(g0.triangles)
-    v0, f0 = np.array(g0.vertices), np.array(g0.faces)
-    kind0 = g0.visual.kind
-    fc0 = np.array(g0.visual.face_colors) if kind0 == "face" else None
-    vc0 = np.array(g0.visual.vertex_colors) if kind0 == "vertex" else None
+def replay_chain(tm, gname, chain):
+    g0, spec = R.build_mesh(tm, gname)
+    v0, f0, kind0, cols0, _ = spec
+    tri0 = v0[f0]
     g = g0
     for i, hop in enumerate(chain):
         fmt, exp = hop["fmt"], hop["exp"]
@@ -103,31 +86,43 @@ def replay_chain(tm, mk, chain):
             return {"clause": "round_trip_raises", "hop": i, "fmt": fmt, "exc": type(e).__name__ + ": " + str(e)[:80]}
         if not src_ok:
             return {"clause": "ExportLeavesSourceUnchanged", "hop": i, "fmt": fmt}
-        if not hasattr(g, "triangles"):
+        if not isinstance(g, tm.Trimesh):
             return {"clause": "triangles_same_order", "hop": i, "fmt": fmt, "got": type(g).__name__}
-        tri = np.array(g.triangles)
+        try:
+            tri = np.array(g.triangles)
+            gv, gf = np.array(g.vertices), np.array(g.faces)
+            gkind = g.visual.kind
+            gcol = np.array(g.visual.face_colors) if gkind == "face" else np.array(g.visual.vertex_colors) if gkind == "vertex" else None
+        except MachineryError:
+            raise
+        except BaseException as e:  # noqa
+            # e.g. faces that point at vertices which are not there: the loaded object cannot even be read
+            return {"clause": "loaded_object_unusable", "hop": i, "fmt": fmt, "exc": type(e).__name__ + ": " + str(e)[:80]}
         if tri.shape != tri0.shape or not np.array_equal(tri, tri0):
             return {"clause": "triangles_same_order", "hop": i, "fmt": fmt,
                     "max_abs_diff": float(np.abs(tri - tri0).max()) if tri.shape == tri0.shape else "shape %s" % (tri.shape,)}
         if exp["vid"]:
-            if not (np.array_equal(np.array(g.vertices), v0) and np.array_equal(np.array(g.faces), f0)):
-                return {"clause": "vertex_identity", "hop": i, "fmt": fmt}
-        if exp["fc"] and fc0 is not None:
-            if g.visual.kind != "face" or not np.array_equal(np.array(g.visual.face_colors)[:, :4 if exp["alpha"] else 3], fc0[:, :4 if exp["alpha"] else 3]):
-                return {"clause": "face_colours_carried", "hop": i, "fmt": fmt, "kind": g.visual.kind}
-        if exp["vc"] and vc0 is not None:
-            if g.visual.kind != "vertex" or not np.array_equal(np.array(g.visual.vertex_colors)[:, :4 if exp["alpha"] else 3], vc0[:, :4 if exp["alpha"] else 3]):
-                return {"clause": "vertex_colours_carried", "hop": i, "fmt": fmt, "kind": g.visual.kind}
+            if not (np.array_equal(gv, v0) and np.array_equal(gf, f0)):
+                return {"clause": "vertex_identity", "hop": i, "fmt": fmt, "vertices_in": len(v0), "vertices_out": len(gv)}
+        if exp["fc"] and kind0 == "fc":
+            n = 4 if exp["alpha"] else 3
+            if gkind != "face" or gcol.shape != cols0.shape or not np.array_equal(gcol[:, :n], cols0[:, :n]):
+                return {"clause": "face_colours_carried", "hop": i, "fmt": fmt, "kind": gkind}
+        if exp["vc"] and kind0 == "vc":
+            # corner by corner: comparable whether or not the format renumbered the vertices
+            n = 4 if exp["alpha"] else 3
+            ok = gkind == "vertex" and gcol.shape == (len(gv), 4) and np.array_equal(gcol[gf][..., :n], cols0[f0][..., :n])
+            if not ok:
+                return {"clause": "vertex_colours_carried", "hop": i, "fmt": fmt, "kind": gkind}
     return None
 
 
 def _chunk(args):
     tm = import_trimesh()
-    sd = seeds(tm)
     out = []
     hops = 0
     for sname, chain in args:
-        f = replay_chain(tm, sd[sname], chain)
+        f = replay_chain(tm, sname, chain)
         hops += len(chain)
         if f:
             f.update({"seed_geometry": sname, "chain": [h["fmt"] for h in chain]})
@@ -136,6 +131,25 @@ def _chunk(args):
 
 
 # ------------------------------------------------------------------ other geometry kinds
+class _guard:
+    """A loaded object that cannot even be compared (faces pointing at vertices that are not there, arrays of
+    the wrong rank, ...) contradicts the property just as a wrong value does: report it, do not crash."""
+
+    def __init__(self, V, clause, detail):
+        self.V, self.clause, self.detail = V, clause, detail
+
+    def __enter__(self):
+        return self
+
+    def __exit__(self, et, ev, tb):
+        if et is None or issubclass(et, (MachineryError, KeyboardInterrupt, SystemExit, MemoryError)):
+            return False
+        d = dict(self.detail)
+        d["exc"] = et.__name__ + ": " + str(ev)[:80]
+        self.V.violation(self.clause, d)
+        return True
+
+
 def other_kinds(tm, V):
     n = 0
     kinds = set()
@@ -158,14 +172,15 @@ def other_kinds(tm, V):
                 continue
             n += 1
             kinds.add((name, ft))
-            if c.__hash__() != h0:
-                V.violation("pointcloud:ExportLeavesSourceUnchanged", {"kind": name, "fmt": ft})
-            if not np.array_equal(np.array(r.vertices), pv):
-                V.violation("pointcloud:points_same_order", {"kind": name, "fmt": ft})
-            if name == "cloud_colors" and ft in ("xyz", "ply", "glb"):
-                got = np.array(r.colors) if hasattr(r, "colors") else np.zeros((0, 4))
-                if got.shape[0] != 5 or not np.array_equal(got[:, :3], pc[:, :3]):
-                    V.violation("pointcloud:colours_carried", {"kind": name, "fmt": ft})
+            with _guard(V, "pointcloud:loaded_object_unusable", {"kind": name, "fmt": ft}):
+                if c.__hash__() != h0:
+                    V.violation("pointcloud:ExportLeavesSourceUnchanged", {"kind": name, "fmt": ft})
+                if not np.array_equal(np.array(r.vertices), pv):
+                    V.violation("pointcloud:points_same_order", {"kind": name, "fmt": ft})
+                if name == "cloud_colors" and ft in ("xyz", "ply", "glb"):
+                    got = np.array(r.colors) if hasattr(r, "colors") else np.zeros((0, 4))
+                    if got.shape[0] != 5 or not np.array_equal(got[:, :3], pc[:, :3]):
+                        V.violation("pointcloud:colours_carried", {"kind": name, "fmt": ft})
     # paths: segments through dxf / svg / dict
     from trimesh.path.entities import Line
     v2 = np.array([[0, 0], [4, 0], [4, 3], [0, 3], [1, 1], [2, 1], [2, 2]], dtype=float)
@@ -194,11 +209,12 @@ def other_kinds(tm, V):
             continue
         n += 1
         kinds.add(("path", ft))
-        if p.__hash__() != h0:
-            V.violation("path:ExportLeavesSourceUnchanged", {"fmt": ft})
-        got = segs(r)
-        if got != want:
-            V.violation("path:segments", {"fmt": ft, "n_got": len(got), "n_want": len(want)})
+        with _guard(V, "path:loaded_object_unusable", {"fmt": ft}):
+            if p.__hash__() != h0:
+                V.violation("path:ExportLeavesSourceUnchanged", {"fmt": ft})
+            got = segs(r)
+            if got != want:
+                V.violation("path:segments", {"fmt": ft, "n_got": len(got), "n_want": len(want)})
     # voxel grid through binvox
     cells = (np.arange(27).reshape(3, 3, 3) % 3) != 1
     T = np.eye(4) * 0.5
@@ -248,12 +264,13 @@ def other_kinds(tm, V):
             continue
         n += 1
         kinds.add(("scene", ft))
-        if s.__hash__() != h0:
-            V.violation("scene:ExportLeavesSourceUnchanged", {"fmt": ft})
-        got = tribag(r)
-        if got != want:
-            V.violation("scene:instance_placement", {"fmt": ft, "n_got": len(got), "n_want": len(want)},
-                        "ThreeMFSceneRoundTrip" if ft == "3mf" else None)
+        with _guard(V, "scene:loaded_object_unusable", {"fmt": ft}):
+            if s.__hash__() != h0:
+                V.violation("scene:ExportLeavesSourceUnchanged", {"fmt": ft})
+            got = tribag(r)
+            if got != want:
+                V.violation("scene:instance_placement", {"fmt": ft, "n_got": len(got), "n_want": len(want)},
+                            "ThreeMFSceneRoundTrip" if ft == "3mf" else None)
     # a group node (no geometry) carrying a rotation, with an offset instance underneath, next to a top-level
     # instance: nested transforms that do not commute; and an empty geometry registered before real ones
     def grouped(with_empty):
@@ -286,9 +303,10 @@ def other_kinds(tm, V):
                 continue
             n += 1
             kinds.add(("scene_grouped%d" % with_empty, ft))
-            got = tribag(r)
-            if got != want:
-                V.violation("scene:instance_placement", {"fmt": ft, "grouped": True, "empty_geometry_first": with_empty, "n_got": len(got), "n_want": len(want)})
+            with _guard(V, "scene:loaded_object_unusable", {"fmt": ft, "grouped": True}):
+                got = tribag(r)
+                if got != want:
+                    V.violation("scene:instance_placement", {"fmt": ft, "grouped": True, "empty_geometry_first": with_empty, "n_got": len(got), "n_want": len(want)})
     # large index values: an un-merged soup whose vertex indices exceed 65535 although it has fewer than 65535 faces
     nf = 22000
     sv = np.zeros((nf * 3, 3))
@@ -305,12 +323,13 @@ def other_kinds(tm, V):
             continue
         n += 1
         kinds.add(("large_indices", fmt))
-        if not src_ok:
-            V.violation("large_indices:ExportLeavesSourceUnchanged", {"fmt": fmt})
-        tri = np.array(r.triangles)
-        if tri.shape != (nf, 3, 3) or not np.array_equal(tri, sv[sf]):
-            bad = int((np.abs(tri - sv[sf]).reshape(nf, -1).max(axis=1) > 0).sum()) if tri.shape == (nf, 3, 3) else -1
-            V.violation("large_indices:triangles_same_order", {"fmt": fmt, "faces": nf, "wrong_faces": bad})
+        with _guard(V, "large_indices:loaded_object_unusable", {"fmt": fmt}):
+            if not src_ok:
+                V.violation("large_indices:ExportLeavesSourceUnchanged", {"fmt": fmt})
+            tri = np.array(r.triangles)
+            if tri.shape != (nf, 3, 3) or not np.array_equal(tri, sv[sf]):
+                bad = int((np.abs(tri - sv[sf]).reshape(nf, -1).max(axis=1) > 0).sum()) if tri.shape == (nf, 3, 3) else -1
+                V.violation("large_indices:triangles_same_order", {"fmt": fmt, "faces": nf, "wrong_faces": bad})
     # coordinates that are not representable: loaded value equals the format's quantisation of the input
     x = np.array([[1 / 3, -2 / 7, 1e-20], [1e20, 123456.789, -0.1], [3.141592653589793, 2.718281828459045, 1.4142135623730951]])
     m0 = tm.Trimesh(x.copy(), [[0, 1, 2]], process=False)
@@ -322,16 +341,64 @@ def other_kinds(tm, V):
             continue
         n += 1
         kinds.add(("quantisation", fmt))
-        got = np.array(r.triangles).reshape(-1, 3)
-        if q == "f32":
-            ok = np.array_equal(got, x.astype(np.float32).astype(np.float64))
-        elif q == "f64":
-            ok = np.array_equal(got, x)
-        else:
-            ok = np.allclose(got, x, rtol=1e-6, atol=1e-8)
-        if not ok:
-            V.violation("quantisation:" + q, {"fmt": fmt, "got": got.tolist()})
+        with _guard(V, "quantisation:loaded_object_unusable", {"fmt": fmt}):
+            got = np.array(r.triangles).reshape(-1, 3)
+            if q == "f32":
+                ok = np.array_equal(got, x.astype(np.float32).astype(np.float64))
+            elif q == "f64":
+                ok = np.array_equal(got, x)
+            else:
+                ok = np.allclose(got, x, rtol=1e-6, atol=1e-8)
+            if not ok:
+                V.violation("quantisation:" + q, {"fmt": fmt, "got": got.tolist()})
     return n, kinds
+
+
+def run_records(V, tables, tier):
+    """Recorded single round trips, judged by TLC (spec/ExchangeRecords.tla)."""
+    R.set_tables(tables)
+    items = R.enumerate_items(tables, tier, seed())
+    # heavy items first so that the pool stays busy
+    order = sorted(range(len(items)), key=lambda k: (0 if items[k][3].startswith("soup:") else 1, k))
+    items = [items[k] for k in order]
+    res = pmap(R.chunk_worker, items, chunk=6)
+    recs = [r for ch in res for r in ch]
+    if len(recs) != len(items):
+        raise MachineryError("records lost: %d of %d" % (len(recs), len(items)))
+    fam_n, fam_eval = {}, {}
+    for k, r in enumerate(recs):
+        r["id"] = k + 1
+        fam_n[r["fam"]] = fam_n.get(r["fam"], 0) + 1
+        fam_eval[r["fam"]] = fam_eval.get(r["fam"], 0) + (1 if r["exc"] == "" else 0)
+    for fam, least in R.MIN_PER_FAMILY.items():
+        if fam_n.get(fam, 0) < least:
+            raise MachineryError("family %s has only %d records (expected at least %d)" % (fam, fam_n.get(fam, 0), least))
+        if fam_eval.get(fam, 0) * 2 < fam_n[fam]:
+            raise MachineryError("family %s: only %d of %d round trips returned at all" % (fam, fam_eval.get(fam, 0), fam_n[fam]))
+    rejects, states, wall = tlc.validate_batches("c08/rec", "ExchangeRecords", recs, CFG_REC, timeout=1200)
+    by_id = {r["id"]: r for r in recs}
+    napp = 0
+    for cid, clause in sorted(rejects.items()):
+        if cid not in by_id:
+            raise MachineryError("TLC rejected unknown id %s" % cid)
+        parts = clause.split(" ", 1)
+        cl = parts[0]
+        dev = parts[1].strip().strip('"') if len(parts) > 1 else "none"
+        r = by_id[cid]
+        if cl in ("not_applicable", "unknown_kind"):
+            raise MachineryError("record %s outside the tables: %s" % (cid, cl))
+        detail = {"family": r["fam"], "variant": r["fmt"], "geometry": r["geom"], "class": r["cls"]}
+        if r["extra"]:
+            detail["extra"] = r["extra"]
+        if r["exc"]:
+            detail["exc"] = r["exc"]
+        else:
+            detail["observed"] = r["obs"]
+        V.violation("%s:%s" % (r["kind"], cl), detail, None if dev == "none" else dev)
+        napp += 1
+    sample = [{k: r[k] for k in ("kind", "fam", "fmt", "geom", "cls", "obs")} for r in (recs[len(recs) // 7], recs[(len(recs) * 5) // 6])]
+    return {"records": len(recs), "records_by_family": fam_n, "round_trips_returned_by_family": fam_eval,
+            "records_rejected_by_tlc": napp, "validator_states": states, "validator_wall_s": round(wall, 1)}, sample
 
 
 def main(argv):
@@ -339,29 +406,40 @@ def main(argv):
     V = Verdict(PROP, tier)
     tm = import_trimesh()
     d = tlc.prepare("c08/mc")
-    r = tlc.must(tlc.run(d, "Exchange", cfg(3, ["Idempotent", "Monotone", "Commute"])), "algebra")
+    r = tlc.must(tlc.run(d, "Exchange", cfg(2 if tier == "quick" else 3, ["Idempotent", "Monotone", "Commute", "MeetOfChain"])), "algebra")
     states, trans = r.distinct, r.generated
+    rt = tlc.must(tlc.run(d, "Exchange", cfg(0, ["EmitTables"]), workers=1, timeout=600), "tables")
+    tabs = [x for x in rt.printed if isinstance(x, dict) and "mesh" in x]
+    if len(tabs) != 1:
+        raise MachineryError("capability tables not emitted")
+    tables = tabs[0]
+    R.check_tables(tables)
     hops = 2 if tier == "quick" else 3
-    r2 = tlc.must(tlc.run(d, "Exchange", cfg(hops, ["Emit"]), workers=1, timeout=900), "emit")
-    chains = r2.printed
+    r2 = tlc.must(tlc.run(d, "Exchange", cfg(hops, ["Emit"]), workers=1, timeout=1800), "emit")
+    chains = [x for x in r2.printed if isinstance(x, dict) and "hops" in x]
     states += r2.distinct
     trans += r2.generated
-    if len(chains) < 100:
-        raise MachineryError("too few chains")
-    sd = sorted(seeds(tm))
+    nfmt = len(tables["mesh"])
+    if len(chains) < 2 * (nfmt + nfmt * nfmt):
+        raise MachineryError("too few chains: %d" % len(chains))
+    for c in chains[:50]:
+        for h in c["hops"]:
+            if h["fmt"] not in R.MESH_VARIANTS:
+                raise MachineryError("chain over unknown variant " + h["fmt"])
     work = []
-    rs = np.random.RandomState(seed())
-    for ci, ch in enumerate(chains):
+    per_class = {}
+    for ci, c in enumerate(chains):
+        sd = CHAIN_SEEDS[c["geom"]]
+        ch = c["hops"]
+        per_class[c["geom"]] = per_class.get(c["geom"], 0) + 1
         if len(ch) == 1:
             for s in sd:
                 work.append((s, ch))
         else:
-            for s in (sd[ci % len(sd)], sd[(ci * 5 + 2) % len(sd)]):
+            for s in {sd[ci % len(sd)], sd[(ci * 5 + 2 + seed()) % len(sd)]}:
                 work.append((s, ch))
-    if tier == "quick":
-        # a sample of three-hop chains on top of all one- and two-hop chains
-        fm = sorted({c[0]["fmt"] for c in chains})
-        tops = {c[0]["fmt"]: c[0]["exp"] for c in chains if len(c) == 1}
+    if min(per_class.get(k, 0) for k in CHAIN_SEEDS) < nfmt:
+        raise MachineryError("a geometry class has no chains: %s" % per_class)
     res = pmap(_chunk, work, chunk=20)
     nhops = sum(x[1] for x in res)
     nchains = sum(x[2] for x in res)
@@ -369,14 +447,27 @@ def main(argv):
         for f in x[0]:
             V.violation("mesh:" + f["clause"], f)
     n_other, kinds = other_kinds(tm, V)
-    distinct = len({(s, tuple(h["fmt"] for h in ch)) for s, ch in work}) + len(kinds)
-    cov = {"evaluations": nhops + n_other, "distinct_nontrivial": distinct,
-           "rule": "every chain of <= %d hops over 11 mesh format/option pairs on 6 seed meshes (face/vertex coloured, plain, two bodies, single face, odd coordinates) + point cloud, path, voxel, instanced scene and quantisation cases; distinct = distinct (geometry, format chain) pairs, all on non-empty geometry" % hops,
+    rec_cov, rec_samples = run_records(V, tables, tier)
+    states += rec_cov["validator_states"]
+    trans += rec_cov["validator_states"]
+    distinct = len({(s, tuple(h["fmt"] for h in ch)) for s, ch in work}) + len(kinds) + rec_cov["records"]
+    cov = {"evaluations": nhops + n_other + rec_cov["records"], "distinct_nontrivial": distinct,
+           "rule": "every chain of <= %d hops over %d mesh format/option variants for 2 geometry classes on %d seed meshes "
+                   "(face/vertex coloured, plain, two bodies, single face, odd coordinates, duplicate vertices, degenerate and "
+                   "repeated faces, unreferenced vertices) + legacy point cloud, path, voxel, instanced scene and quantisation "
+                   "cases + recorded single round trips of every geometry kind judged by TLC (families in records_by_family); "
+                   "distinct = distinct (geometry, format chain) pairs + records" % (hops, nfmt, sum(len(v) for v in CHAIN_SEEDS.values())),
            "states": states, "transitions": trans, "chains": nchains, "hops": nhops, "other_kind_round_trips": n_other,
-           "samples": [[h["fmt"] for h in chains[len(chains) // 2]], [h["fmt"] for h in chains[-1]], sorted(map(list, kinds))[:5]]}
+           "traces_validated_against_impl": nchains + rec_cov["records"],
+           "variants": {k: len(v) for k, v in R.VARIANTS.items()},
+           "samples": [[h["fmt"] for h in chains[len(chains) // 2]["hops"]], [h["fmt"] for h in chains[-1]["hops"]],
+                       sorted(map(list, kinds))[:5]] + rec_samples}
+    cov.update(rec_cov)
     return V.finish("exploration", cov, assumptions=[
-        "coordinates exactly representable in float32 for the exact comparisons; a separate family checks quantisation of non-representable values",
-        "a colour kind is demanded of a format only if its exporter writes it by design (capability table in Exchange.tla)",
+        "coordinates exactly representable in float32 for the exact comparisons; separate families check quantisation of non-representable values at the precision class of the variant",
+        "a colour kind is demanded of a variant only if its exporter writes it by design (capability tables in ExchangeCaps.tla)",
+        "vertex colours are compared corner by corner of every triangle; vertex / face arrays only where the variant keeps vertex identity",
+        "path curves are compared as curves (Hausdorff distance of the sampled polylines, 2e-4 of the path size; 1e-3 for 3-digit SVG), straight segments exactly at the precision class",
     ])
 
 
@@ -385,4 +476,9 @@ if __name__ == "__main__":
         sys.exit(main(sys.argv[1:]))
     except MachineryError as e:
         print("MACHINERY-ERROR:", e)
+        sys.exit(2)
+    except Exception as e:  # noqa  an exception of the harness itself is never a verdict
+        import traceback
+        traceback.print_exc()
+        print("MACHINERY-ERROR: unexpected %s: %s" % (type(e).__name__, e))
         sys.exit(2)
